@@ -58,8 +58,8 @@ func (w *World) durableWrite(c *ssa.CallCommon) (string, bool) {
 		if n, ok := t.(*types.Named); ok && n.Obj().Name() == a.typ {
 			return a.typ + "." + a.name, true
 		}
-		// embedded interface methods (ethdb.Database embeds KeyValueWriter)
-		if a.typ == "KeyValueWriter" || a.typ == "Batch" || a.typ == "DB" {
+		// methods reached through an unnamed / embedding interface
+		if _, isNamed := t.(*types.Named); !isNamed {
 			if _, isI := t.Underlying().(*types.Interface); isI {
 				return a.typ + "." + a.name, true
 			}
